@@ -152,3 +152,15 @@ class Check:
             for m in self.inconclusive[:20]: print("INCONCLUSIVE:", m)
             sys.exit(2)
         sys.exit(0)
+
+def guarded(main):
+    """run a check's main(); engine/build problems are inconclusive (exit 2), never a silent success or a bogus violation"""
+    import traceback
+    try:
+        main()
+    except SystemExit:
+        raise
+    except Exception as e:
+        traceback.print_exc()
+        print(f"INCONCLUSIVE: {type(e).__name__}: {str(e)[:300]}")
+        sys.exit(2)
